@@ -251,6 +251,98 @@ def slow_reader_cases(P, seed, n=12):
     return cases
 
 
+def cancel_cases(P, seed, n=10):
+    """C08, last sentence: the socket's cancellation token is cancelled in the middle of traffic - connections in
+    every stage (handshake, transfer, closing), calls pending."""
+    import random
+    impl = Impl()
+    cases = []
+    try:
+        for k in range(n):
+            r = random.Random(seed * 104729 + k)
+            ops = []
+
+            def do(l):
+                ops.append(l)
+                return impl.op(l)
+            do(f"net new seed={seed * 1000 + 700 + k} max=8 socks=2 rx={r.choice([4096, 65536])} tx0=8192 inact_ms={r.choice([3000, 10000])}")
+            nconn = r.choice([1, 2, 3])
+            for i in range(1, nconn + 1):
+                a, b = (1, 2) if r.random() < 0.7 else (2, 1)
+                do(f"net accept {i} {b}")
+                do(f"net connect {i} {a} {b}")
+                if r.random() < 0.7:
+                    do("net pump 20")
+            for _ in range(r.randrange(0, 4)):
+                do("net pump 20")
+                do(f"net adv {r.choice([1000000, 45000000])}")
+            names = [f"c{i}" for i in range(1, nconn + 1)] + [f"a{i}" for i in range(1, nconn + 1)]
+            for nme in names:
+                do(f"net state {nme}")
+            for _ in range(r.randrange(0, 12)):
+                nme = r.choice(names)
+                do(r.choice([f"net write {nme} {r.choice([10, 1000, 6000])}", f"net read {nme} {r.choice([100, 5000])}", "net pump 20",
+                             f"net adv {r.choice([1000000, 45000000])}", f"net shutdown {nme}", f"net flush {nme}"]))
+            victim = r.choice([1, 2])
+            do(f"net cancel {victim}")
+            do("net tables")
+            do("net pump 200")                 # whatever was on the wire before the cancellation is delivered here
+            do("net adv 8")                    # marker: from here on the cancelled socket must be silent and its calls resolved
+            for rnd in range(3):
+                for nme in names:
+                    do(f"net state {nme}")
+                    do(f"net read {nme} 100000")
+                    do(f"net write {nme} 10")
+                    do(f"net flush {nme}")
+                do("net pump 50")
+                do(f"net adv {r.choice([1000000000, 4000000000])}")
+            do("net pump 50")
+            do("net tables")
+            cases.append(ops)
+    finally:
+        impl.close()
+    return cases
+
+
+def oracle_cancel(P):
+    """C08: cancelling a socket's token ends its dispatcher and connection tasks promptly (the socket reports it has
+    ended, and once what was already on the wire is delivered it never emits another datagram), and every call on a
+    stream of that socket resolves - data that was already buffered, then an error; writes fail - instead of hanging."""
+    def orc(case, impl):
+        hits = []
+        try:
+            ci = next(i for i, l in enumerate(case) if l.startswith("net cancel "))
+            end = case.index("net adv 8")
+        except (StopIteration, ValueError):
+            return []
+        victim = int(case[ci].split()[2])
+        tr = NetTrace(case, impl)
+        if ci + 1 < len(case) and case[ci + 1] == "net tables" and f"{victim}:{{dispatcher-ended}}" not in impl[ci + 1]:
+            hits.append({"sig": {"oracle": "net_cancel", "what": "dispatcher_still_running_after_cancel"},
+                         "text": f"after `{case[ci]}` socket {victim} still reports a live dispatcher: {impl[ci + 1][:160]}"})
+        mine = {n for n, c in tr.calls.items() if c["sock"] == victim}
+        for i in range(end, len(case)):
+            op, out = case[i], impl[i]
+            t = op.split()
+            if t[1] == "pump":
+                m = re.search(r"d=\[([^\]]*)\]", out)
+                for ent in (m.group(1).split(",") if m and m.group(1) else []):
+                    if ent.startswith(f"{victim}>"):
+                        hits.append({"sig": {"oracle": "net_cancel", "what": "datagram_after_cancel"},
+                                     "text": f"socket {victim} was cancelled (and the wire drained) but later emitted {ent} (`{op}`)"})
+                        return hits[:2]
+            if t[1] in ("read", "write", "flush") and t[2] in mine and out == "pending":
+                hits.append({"sig": {"oracle": "net_cancel", "what": "call_hangs_after_cancel"},
+                             "text": f"`{op}` on a stream of the cancelled socket {victim} is still Pending"})
+                return hits[:2]
+            if t[1] == "write" and t[2] in mine and out.startswith("ready"):
+                hits.append({"sig": {"oracle": "net_cancel", "what": "write_accepted_after_cancel"},
+                             "text": f"`{op}` on a stream of the cancelled socket {victim} accepted bytes ({out})"})
+                return hits[:2]
+        return hits[:2]
+    return orc
+
+
 def _cache_key(seed, tier):
     import hashlib
     h = hashlib.sha1()
@@ -282,6 +374,7 @@ def gen_net(P):
             impl.close()
         cases += stale_shutdown_cases(P, seed, P.scale(tier, 24, 200))
         cases += slow_reader_cases(P, seed, P.scale(tier, 12, 150))
+        cases += cancel_cases(P, seed, P.scale(tier, 10, 150))
         try:
             os.makedirs(cdir, exist_ok=True)
             for fn in os.listdir(cdir):
@@ -550,5 +643,7 @@ def register(P):
     P.PROPS["C02"]["components"].append("net")
     P.PROPS["C02"]["oracles"]["net_progress"] = oracle_progress(P)
     P.PROPS["C02"]["trusted"] = P.PROPS["C02"].get("trusted", []) + ["component `net` (real sockets, dispatcher and connection tasks over a scripted network) has no model: oracle-only"]
+    P.ORACLE_COMPONENT["net_cancel"] = "net"
+    P.PROPS["C08"]["oracles"]["net_cancel"] = oracle_cancel(P)
     P.PROPS["C08"]["components"].append("net")
     P.PROPS["C08"]["oracles"]["net_tables"] = oracle_limit_release(P)
